@@ -108,4 +108,116 @@ theorem dispatch_stuck (status : List Addr) (subs : List Sub) (h : ∃ s ∈ sub
         · simp only [dispatch, hc, hr, if_true]; exact ih ⟨x, hx, hst⟩
       · simp [dispatch, hc, hr]
 
+theorem applyEv_unchanged (eps : List Addr) (ev : WEv) (h : (applyEv eps ev).2 = false) : (applyEv eps ev).1 = eps := by
+  cases ev with
+  | put k => unfold applyEv at *; by_cases hk : k ∈ eps <;> simp_all
+  | del k => unfold applyEv at *; by_cases hk : k ∈ eps <;> simp_all
+
+/-- the last snapshot the stream has emitted (the initial one included) is its current set -/
+theorem emitted_last (eps : List Addr) (evs : List WEv) :
+    (eps :: emitted eps evs).getLast? = some (applyAll eps evs) := by
+  induction evs generalizing eps with
+  | nil => simp [emitted, applyAll]
+  | cons ev rest ih =>
+    have hstep : applyAll eps (ev :: rest) = applyAll (applyEv eps ev).1 rest := rfl
+    rw [hstep, ← ih (applyEv eps ev).1]
+    have hem : emitted eps (ev :: rest) = if (applyEv eps ev).2 then (applyEv eps ev).1 :: emitted (applyEv eps ev).1 rest
+        else emitted (applyEv eps ev).1 rest := rfl
+    rw [hem]
+    by_cases hc : (applyEv eps ev).2 = true
+    · simp only [hc, if_true]
+      rw [List.getLast?_cons_cons]
+    · have hc' : (applyEv eps ev).2 = false := by simpa using hc
+      simp only [hc', Bool.false_eq_true, if_false]
+      rw [applyEv_unchanged eps ev hc']
+
+/-- dispatch never changes who is receiving / cancelled -/
+theorem dispatch_flags (status : List Addr) (subs : List Sub) :
+    ∀ s' ∈ (dispatch status subs).1, ∃ s ∈ subs, s'.reading = s.reading ∧ s'.cancelled = s.cancelled := by
+  induction subs with
+  | nil => intro s' hs'; simp [dispatch] at hs'
+  | cons y r ih =>
+    intro x hx
+    by_cases hc : y.cancelled = true
+    · simp only [dispatch, hc, if_true, List.mem_cons] at hx
+      rcases hx with rfl | hx
+      · exact ⟨x, by simp, rfl, rfl⟩
+      · obtain ⟨z, hz, e⟩ := ih x hx; exact ⟨z, by simp [hz], e⟩
+    · have hc' : y.cancelled = false := by simpa using hc
+      by_cases hr : y.reading = true
+      · simp only [dispatch, hc', hr, if_true, Bool.false_eq_true, if_false, List.mem_cons] at hx
+        rcases hx with rfl | hx
+        · exact ⟨y, by simp, by simp [hr], by simp [hc']⟩
+        · obtain ⟨z, hz, e⟩ := ih x hx; exact ⟨z, by simp [hz], e⟩
+      · have hr' : y.reading = false := by simpa using hr
+        simp only [dispatch, hc', hr', Bool.false_eq_true, if_false] at hx
+        exact ⟨x, hx, rfl, rfl⟩
+
+def AllReady (st : St) : Prop := ∀ s ∈ st.subs, s.reading = true ∨ s.cancelled = true
+
+/-- one turn keeps a healthy loop healthy when every subscriber is receiving or cancelled -/
+theorem turn_healthy (st : St) (ev : Ev) (hb : st.blocked = false) (he : st.exited = false)
+    (hev : ev ≠ .closed) (h : AllReady st) :
+    (turn st ev).blocked = false ∧ (turn st ev).exited = false ∧ AllReady (turn st ev) ∧
+    (turn st ev).latest = lastUpdate st.latest [ev] := by
+  have flags : ∀ (status : List Addr) (l : List Sub), (∀ s ∈ l, s.reading = true ∨ s.cancelled = true) →
+      ∀ s' ∈ (dispatch status l).1, s'.reading = true ∨ s'.cancelled = true := by
+    intro status l hl s' hs'
+    obtain ⟨s, hs, e1, e2⟩ := dispatch_flags status l s' hs'
+    rw [e1, e2]; exact hl s hs
+  unfold turn
+  simp only [hb, he, Bool.or_self, Bool.false_eq_true, if_false]
+  cases ev with
+  | closed => exact absurd rfl hev
+  | update a => exact ⟨(dispatch_ready a st.subs h).1, by simpa using he, flags a st.subs h, rfl⟩
+  | tick => exact ⟨(dispatch_ready st.latest st.subs h).1, by simpa using he, flags st.latest st.subs h, rfl⟩
+  | unsub id =>
+    have hk : ∀ s ∈ (st.subs.partition (·.id = id)).2, s.reading = true ∨ s.cancelled = true := by
+      intro s hs
+      rw [List.partition_eq_filter_filter] at hs
+      exact h s (List.mem_filter.mp hs).1
+    exact ⟨(dispatch_ready st.latest _ hk).1, by simpa using he, flags st.latest _ hk, rfl⟩
+
+theorem lastUpdate_append (l : List Addr) (a b : List Ev) : lastUpdate l (a ++ b) = lastUpdate (lastUpdate l a) b := by
+  induction a generalizing l with
+  | nil => rfl
+  | cons ev r ih => cases ev <;> simp [lastUpdate, ih]
+
+theorem run_healthy (st : St) (evs : List Ev) (hb : st.blocked = false) (he : st.exited = false)
+    (hev : ∀ ev ∈ evs, ev ≠ .closed) (h : AllReady st) :
+    (run st evs).blocked = false ∧ (run st evs).exited = false ∧ AllReady (run st evs) ∧
+    (run st evs).latest = lastUpdate st.latest evs := by
+  induction evs generalizing st with
+  | nil => exact ⟨hb, he, h, rfl⟩
+  | cons ev rest ih =>
+    obtain ⟨h1, h2, h3, h4⟩ := turn_healthy st ev hb he (hev ev (by simp)) h
+    have := ih (turn st ev) h1 h2 (fun e he' => hev e (by simp [he'])) h3
+    simp only [run, List.foldl_cons] at this ⊢
+    refine ⟨this.1, this.2.1, this.2.2.1, ?_⟩
+    rw [this.2.2.2, h4]
+    exact (lastUpdate_append st.latest [ev] rest).symm
+
+def updateOf : Ev → Option (List Addr)
+  | .update a => some a
+  | _ => none
+
+theorem lastUpdate_filterMap (l : List Addr) (evs : List Ev) :
+    lastUpdate l evs = ((evs.filterMap updateOf).getLast?).getD l := by
+  induction evs generalizing l with
+  | nil => rfl
+  | cons ev r ih =>
+    cases ev with
+    | update a =>
+      simp only [lastUpdate, List.filterMap_cons, updateOf, ih]
+      cases hr : (r.filterMap updateOf) with
+      | nil => simp
+      | cons x xs =>
+        simp only [List.getLast?_cons_cons]
+        cases hl : (x :: xs).getLast? with
+        | none => simp at hl
+        | some v => rfl
+    | tick => simp [lastUpdate, updateOf, ih]
+    | unsub id => simp [lastUpdate, updateOf, ih]
+    | closed => simp [lastUpdate, updateOf, ih]
+
 end Eru.Misc.Helium
